@@ -68,6 +68,24 @@ CHECKS = {
                 "theorem only. 'Latest request wins' is how the statement is read for repeated bans of one address. No axioms.",
         "technique": "Coq proof over a history model of the ban list + wire-level history correspondence on the real server",
     },
+    "C20": {
+        "text": "Model FS/Crash.v: a directory as a map from file names to contents, six system calls (create/truncate, exclusive create, "
+                "write, rename, link, unlink), the script of calls of each persistent update AS REPAIRED (temporary file + rename for the "
+                "message board, threaded news, ban list and account update; temporary file + link(2) + unlink for account creation), a "
+                "crash = a prefix of the script. Theorems (Props/C20.v) for EVERY crash point k of every script on every directory: "
+                "single_file_stores_atomic (the store's file is the complete old or the complete new content, no other file but the "
+                "temporary one changes), acknowledged_is_durable, account_create_atomic / _durable / _exclusive, account_update_atomic "
+                "(also under a new login: the directory loads and holds exactly the old or exactly the new accounts as the loader, which "
+                "reads the login inside each file, sees them; YAML decoder = section parameter), account_delete_atomic, and "
+                "in_place_write_refuted (why the pinned tree failed). Tie to the code on every run: the real managers perform generated "
+                "update sequences in a child process under strace; the traced calls on the configuration directory are compared call by "
+                "call with the model's scripts; every prefix of every trace is materialised as a directory and loaded with the real "
+                "constructors (NewFlatNews, NewThreadedNewsYAML, NewBanFile, NewYAMLAccountManager) and classified old / new / neither.",
+        "note": "Four defects of the pinned tree found by this check and repaired (e525b84, 7ff262a, a985cd9, 5886a2b). SIGKILL semantics "
+                "only (no power loss / fsync ordering). Trusted: strace, trace parser and replayer (cross-checked against the directory "
+                "the child leaves). No axioms.",
+        "technique": "Coq proof over a system-call-level model of the updates + strace-traced correspondence and exhaustive crash-point replay on the real loaders",
+    },
     "C05": {
         "text": "Theorems (Props/C05.v): (guards_match_spec) for every one of the 43 handlers found in the source the set of Access constants it passes "
                 "to Authorize equals the reference table (no dropped check, wrong constant or extra check), every registered type is covered, "
